@@ -293,5 +293,7 @@ def run(ctx):
     r05a(ctx)
     r05b(ctx)
     r05c(ctx)
+    from .c04 import r04d
+    r04d(ctx)    # a non-definitive cached interval makes results depend on the order bounds()/tighten_bounds() are called
     ctx.assume("sub-edits hold no reference to the edit that owns them (calls on other objects do not change self's fields)")
     ctx.assume("CPython semantics of None dereference; third-party objects (numpy arrays, tqdm) are not freed behind the engine's back")
